@@ -5,7 +5,10 @@ set -u
 what=$1; tier=$2; shift 2
 cd /repo || exit 2
 if [ -n "$(git status --porcelain)" ]; then echo "/repo is dirty"; exit 2; fi
-restore() { git -C /repo checkout -q HEAD -- . ; git -C /repo clean -fdq; }
+# evidence files describe runs on the unchanged tree: keep the committed ones
+evbak=$(mktemp -d)
+cp -a /verif/evidence/. "$evbak"/ 2>/dev/null
+restore() { git -C /repo checkout -q HEAD -- . ; git -C /repo clean -fdq; cp -a "$evbak"/. /verif/evidence/ 2>/dev/null; rm -rf "$evbak"; }
 trap restore EXIT
 if [[ "$what" == REV:* ]]; then
   git checkout -q "${what#REV:}" -- . || exit 2
